@@ -651,3 +651,35 @@ Proof.
         try (destruct l; cbn [negb]; try reflexivity;
              match goal with |- context [forallb hashable ?x] => destruct (forallb hashable x) end; reflexivity).
 Qed.
+
+(* ---- sort_key.SortKey.__lt__ ------------------------------------------------------------------------------ *)
+
+Lemma fallback_pos_gen : forall a : val,
+  ((if match a with VNone => true | _ => false end then 0 else 1), (if is_number a then 0 else 1), type_name a) = fallback_pos a.
+Proof. destruct a; reflexivity. Qed.
+
+Theorem gen_sortkey_lt_ok : forall va vb ascs ra rb,
+  gen_sortkey_lt va vb ascs ra rb tt =
+  match sortkey_lt va vb ascs ra rb with Some b => Ok b tt | None => Exc OtherErr tt end.
+Proof.
+  intros va vb ascs ra rb. unfold gen_sortkey_lt.
+  revert vb ascs. induction va as [|a va IH]; intros vb ascs.
+  - reflexivity.
+  - destruct vb as [|b vb]; [reflexivity|]. destruct ascs as [|s ascs]; [reflexivity|].
+    cbn [zip3 for_first sortkey_lt]. unfold bind at 1. unfold bind at 1.
+    unfold sortkey_col, try_with, bind at 1 2, py_lt_m, ret, raise.
+    rewrite !fallback_pos_gen.
+    destruct (py_lt a b); cbn beta iota.
+    + reflexivity.
+    + destruct (py_lt b a); cbn beta iota.
+      * reflexivity.
+      * specialize (IH vb ascs). unfold bind in IH. exact IH.
+      * destruct (pos_ltb (fallback_pos a) (fallback_pos b)); [reflexivity|].
+        destruct (pos_ltb (fallback_pos b) (fallback_pos a)); [reflexivity|].
+        specialize (IH vb ascs). unfold bind in IH. exact IH.
+      * reflexivity.
+    + destruct (pos_ltb (fallback_pos a) (fallback_pos b)); [reflexivity|].
+      destruct (pos_ltb (fallback_pos b) (fallback_pos a)); [reflexivity|].
+      specialize (IH vb ascs). unfold bind in IH. exact IH.
+    + reflexivity.
+Qed.
